@@ -334,6 +334,17 @@ func (e *CEnv) pkgMember(pkgPath, name string) (Value, bool) {
 
 // local resolves a source-level variable name at the loop header e.at.
 func (e *CEnv) local(name string) (Value, bool) {
+	if v, ok := e.local1(name); ok {
+		return v, true
+	}
+	// the variable may have been renamed since the contract was written (see locals.go)
+	if nn, ok := e.x.W.renames(e.fn)[name]; ok {
+		return e.local1(nn)
+	}
+	return nil, false
+}
+
+func (e *CEnv) local1(name string) (Value, bool) {
 	// phi at the header with that comment
 	if e.at != nil {
 		for _, in := range e.at.Instrs {
